@@ -121,6 +121,16 @@ def to_trace(sc, out):
             events.append(["shutdownCall"])
         elif k == "accept-end" and not (e.get("concurrent") and (e["rid"], e["thread"]) in rejected):
             r = result_of(e)
+            if r[0] in ("raisedRT", "raisedBase"):
+                # several payloads may have failed at once (an exception group): name one whose outcome is of the
+                # kind the run ended with (a BaseException for a bare raise, an Exception / value for RuntimeError)
+                outs = {x[1]: x[2] for x in events if x[0] == "bodyEnd"}
+                want = ("baseExc", "sysExit", "kbd") if r[0] == "raisedBase" else ("exc", "value")
+                for c in e.get("causes", []):
+                    cp = c.get("pid", c.get("orphan_pid"))
+                    if cp is not None and outs.get(cp) in want:
+                        r = [r[0], cp]
+                        break
             events.append(["endRun"] + r)
     return sorted(set(pids)), events
 
